@@ -3,19 +3,32 @@ package iterators
 // Range creates an Iterator that will
 // iterate numbers from a to b, including b.
 func Range(a, b int) Iterator {
-	return &ranger{pos: a - 1, end: b}
+	return &ranger{next: a, end: b}
 }
 
+// ranger yields next, next+1, ... end (inclusive). It never computes a value
+// outside [next, end], so it is safe at the extremes of int.
 type ranger struct {
-	pos int
-	end int
+	next int
+	end  int
+	done bool
 }
 
 // Next returns the next number in the Range or nil
 func (r *ranger) Next() interface{} {
-	if r.pos < r.end {
-		r.pos++
-		return r.pos
+	if r.done || r.next > r.end {
+		return nil
 	}
-	return nil
+	v := r.next
+	if v == r.end {
+		r.done = true
+	} else {
+		r.next++
+	}
+	return v
 }
+
+const (
+	maxInt = int(^uint(0) >> 1)
+	minInt = -maxInt - 1
+)
